@@ -121,6 +121,11 @@ class PathAnalysis:
         if k == "call":
             return ("r", call_key(e))
         if k == "cond":
+            t = self.truth(e[1], env)
+            if t is True:
+                return self.eval(e[2], env)
+            if t is False:
+                return self.eval(e[3], env)
             a = self.eval(e[2], env)
             b = self.eval(e[3], env)
             return a if a == b else None
@@ -128,11 +133,59 @@ class PathAnalysis:
             v = self.eval(e[2], env)
             if v and v[0] == "c":
                 return ("c", -v[1])
+        if k == "bin" and e[1] in ("&", "|", "+", "-", "^"):
+            a, b = self.eval(e[2], env), self.eval(e[3], env)
+            if a and b and a[0] == "c" and b[0] == "c":
+                x, y = a[1], b[1]
+                return ("c", {"&": x & y, "|": x | y, "+": x + y, "-": x - y, "^": x ^ y}[e[1]])
+            if e[1] == "&" and ((a and a[0] == "c" and a[1] == 0) or (b and b[0] == "c" and b[1] == 0)):
+                return ("c", 0)
+        if k == "idx" or k == "mem" or k == "deref":
+            p = path(e)
+            if p is not None and ("$" + p) in env:
+                return env["$" + p]
+        return None
+
+    def truth(self, cond, env):
+        """True / False / None for a condition under env (constants, != facts and ranges only)"""
+        c = strip(cond)
+        if kind(c) == "un" and c[1] == "!":
+            t = self.truth(c[2], env)
+            return None if t is None else (not t)
+        l, op, r = normalise_cmp(c)
+        if l is None:
+            return None
+        rv = self.eval(r, env)
+        lv = self.eval(l, env)
+        if rv is None or rv[0] != "c" or lv is None:
+            return None
+        n = rv[1]
+        if lv[0] == "c":
+            return CMP[op](lv[1], n)
+        if lv[0] == "ne" and lv[1] == n:
+            if op == "==":
+                return False
+            if op == "!=":
+                return True
+        if lv[0] == "rng":
+            lo, hi = lv[1], lv[2]
+            if op == "==" and not _in_rng(lv, n):
+                return False
+            if op == "!=" and not _in_rng(lv, n):
+                return True
+            if op == "<" and hi is not None and hi < n:
+                return True
+            if op == "<" and lo is not None and lo >= n:
+                return False
+            if op == ">" and lo is not None and lo > n:
+                return True
+            if op == ">" and hi is not None and hi <= n:
+                return False
         return None
 
     def _set(self, env, name, val, tracked):
-        if any(k.startswith("$" + name + "-") or k.startswith("$" + name + ".") for k in env if k[0] == "$"):
-            env = {k: v for k, v in env.items() if not (k.startswith("$" + name + "-") or k.startswith("$" + name + "."))}
+        if any(k.startswith(("$" + name + "-", "$" + name + ".", "$" + name + "&", "$" + name + "[")) for k in env if k[0] == "$"):
+            env = {k: v for k, v in env.items() if not k.startswith(("$" + name + "-", "$" + name + ".", "$" + name + "&", "$" + name + "["))}
         if name not in tracked:
             return env
         env = dict(env)
@@ -178,6 +231,25 @@ class PathAnalysis:
         k = kind(c)
         if k == "un" and c[1] == "!":
             return self.assume(func, bid, c[2], not pol, env, user, tracked, calls)
+        if k == "bin" and c[1] in ("&&", "||"):
+            # a logical operator used as a value (e.g. under `!`): clang's CFG does not split it
+            conj = (c[1] == "&&") == pol  # both operands have polarity `pol`
+            if conj:
+                r = self.assume(func, bid, c[2], pol, env, user, tracked, calls)
+                if r is None:
+                    return None
+                return self.assume(func, bid, c[3], pol, r[0], r[1], tracked, calls)
+            r1 = self.assume(func, bid, c[2], pol, env, user, tracked, calls)
+            r2 = self.assume(func, bid, c[3], pol, env, user, tracked, calls)
+            if r1 is None:
+                return r2
+            if r2 is None:
+                return r1
+            if r1[1] == r2[1]:
+                # keep only the environment facts both alternatives agree on
+                e = {k2: v for k2, v in r1[0].items() if r2[0].get(k2) == v}
+                return e, r1[1]
+            return env, user
         u2 = self.on_assume(func, bid, c, pol, env, user)
         if u2 is self.INFEASIBLE:
             return None
@@ -191,6 +263,12 @@ class PathAnalysis:
         rv = self.eval(rhs, env)
         if rv is None or rv[0] != "c":
             return env, user
+        if kind(strip(lhs)) == "bin" and strip(lhs)[1] in ("&", "|", "+", "-", "^"):
+            lv0 = self.eval(lhs, env)
+            if lv0 is not None and lv0[0] == "c":
+                if not CMP[op](lv0[1], rv[1]):
+                    return None
+                return env, user
         n = rv[1]
         l = strip(lhs)
         # assignment inside the condition: the variable was already set by transfer
@@ -200,6 +278,10 @@ class PathAnalysis:
             lv = env.get(target) if target in tracked else self.eval(l[3], env)
         elif kind(l) == "var":
             target = l[1]
+            lv = env.get(target)
+        elif kind(l) == "bin" and l[1] == "&" and kind(strip(l[2])) == "var" and is_int(l[3]) and self.eval(l, env) is None:
+            # `v & CONST` on a local/parameter: remember the outcome so that a later identical test is correlated
+            target = "$%s&%d" % (strip(l[2])[1], int_val(l[3]))
             lv = env.get(target)
         else:
             p = path(l)
@@ -399,7 +481,7 @@ def normalise_cmp(c):
         if kind(strip(l)) == "int":
             return r, SWAP[c[1]], l
         return None, None, None
-    if kind(c) in ("var", "mem", "call", "asg", "idx", "deref"):
+    if kind(c) in ("var", "mem", "call", "asg", "idx", "deref") or (kind(c) == "bin" and c[1] in ("&", "|", "+", "-", "^")):
         return c, "!=", ["int", 0]
     return None, None, None
 
